@@ -521,6 +521,7 @@ Events ==
   \cup (IF "FailPut" \in Ops THEN [ev : {"Fail"}, s : Shards, fp : BOOLEAN, fg : {FALSE}] ELSE {})
   \cup (IF "FailGet" \in Ops THEN [ev : {"Fail"}, s : Shards, fp : {FALSE}, fg : BOOLEAN] ELSE {})
   \cup (IF "Evacuate" \in Ops THEN [ev : {"Evacuate"}, srcs : SrcSeqs, ign : BOOLEAN, fh : BOOLEAN] ELSE {})
+  \cup (IF "EvacuateQ" \in Ops THEN [ev : {"Evacuate"}, srcs : SrcSeqs, ign : {FALSE}, fh : BOOLEAN] ELSE {})   \* quick: errors never ignored
 
 \* environment restriction used by the "repaired world" configuration
 EnvOK(e) ==
